@@ -264,7 +264,7 @@ namespace
         auto grp = left.data<d_group>();
         auto arr = right.data<d_array>();
         
-        if (arr->check_type(runtime, std::array<sqf::runtime::type, 5> { t_string(), t_array(), t_array(), t_scalar(), t_string() }))
+        if (!arr->check_type(runtime, std::array<sqf::runtime::type, 5> { t_string(), t_array(), t_array(), t_scalar(), t_string() }))
         {
             return {};
         }
@@ -299,12 +299,19 @@ namespace
             }
         }
         auto veh = object::create(runtime, conf, false);
+        auto obj = std::make_shared<d_object>(veh);
+        if (!grp->is_null())
+        {
+            grp->value()->push_back(obj);
+        }
+        // The placement radius scatters the position; no radius (or one that is no usable number), no scatter
+        int spread = radius >= 0.5f && radius <= 1000000.0f ? static_cast<int>(radius * 2) : 0;
         veh->position({
-            position->at(0).data<d_scalar, float>() + ((std::rand() % static_cast<int>(radius * 2)) - radius),
-            position->at(1).data<d_scalar, float>() + ((std::rand() % static_cast<int>(radius * 2)) - radius),
+            position->at(0).data<d_scalar, float>() + (spread > 0 ? (std::rand() % spread) - radius : 0.0f),
+            position->at(1).data<d_scalar, float>() + (spread > 0 ? (std::rand() % spread) - radius : 0.0f),
             position->at(2).data<d_scalar, float>()
             });
-        return std::make_shared<d_object>(veh);
+        return obj;
     }
     value createUnit_string_array(runtime& runtime, value::cref left, value::cref right)
     {
